@@ -55,12 +55,42 @@ def state_fp(sim, detail=False):
          'applied': sha(canon(sim.applied_instructions))}
     return (sha(c), c) if detail else (sha(c), None)
 
+def read_shifts(scenario_yaml):
+    """schedule id -> (start second of day, end second of day) read straight from the scenario's schedules.csv (clock oracle)"""
+    import csv
+    path = os.path.join(os.path.dirname(os.path.abspath(scenario_yaml)), 'schedules.csv')
+    out = {}
+    if os.path.exists(path):
+        for row in csv.DictReader(open(path)):
+            def sec(x):
+                h, m, s_ = [int(float(p)) for p in x.strip().strip('"').split(':')]
+                return h * 3600 + m * 60 + s_
+            out[row['schedule_id']] = (sec(row['start_time']), sec(row['end_time']))
+    return out
+
 class Capture(Handler):
-    def __init__(self):
+    def __init__(self, shifts=None):
         self.steps = []
         self.off_shift_dispatch = []
+        self.shifts = shifts or {}
+        self.availability_vs_clock = []
     def handle(self, reports, runner_payload):
         sim = runner_payload.s
+        # C20 by the clock: the availability a human driver has in the step that just ran is decided by the time at which that
+        # step started (start inclusive, end exclusive, wrapping past midnight)
+        t_start = int(sim.sim_time) - int(sim.sim_timestep_duration_seconds)
+        tod = t_start % 86400
+        for vid, v in sim.vehicles.items():
+            d = v.driver_state
+            sid = getattr(getattr(d, 'attributes', None), 'schedule_id', None)
+            if sid in self.shifts:
+                a, b = self.shifts[sid]
+                inside = (a <= tod < b) if a <= b else (a <= tod or tod < b)
+                if bool(d.available) != inside and len(self.availability_vs_clock) < 5:
+                    self.availability_vs_clock.append({'step': len(self.steps), 'time': t_start, 'time_of_day': tod, 'vehicle': vid, 'shift': [a, b], 'available': bool(d.available)})
+                ins = sim.applied_instructions.get(vid)
+                if not inside and type(ins).__name__ == 'DispatchTripInstruction':
+                    self.off_shift_dispatch.append({'step': len(self.steps), 'time': t_start, 'vehicle': vid, 'request': ins.request_id, 'by': 'clock'})
         for vid, ins in sim.applied_instructions.items():
             v = sim.vehicles.get(vid)
             if v is not None and type(ins).__name__ == 'DispatchTripInstruction' and type(v.driver_state).__name__ == 'HumanUnavailable':
@@ -121,7 +151,7 @@ def main():
                     return dataclasses.replace(self, count=self.count + 1), out
             gens = (RoundRobin(), Dispatcher(cfg.dispatcher), ChargingFleetManager(cfg.dispatcher))
         rp = load_simulation(cfg, gens)
-        cap = Capture()
+        cap = Capture(read_shifts(a.scenario))
         rp.e.reporter.add_handler(cap)
         if not any(isinstance(h, StatsHandler) for h in rp.e.reporter.handlers):
             rp.e.reporter.add_handler(StatsHandler())
@@ -158,6 +188,7 @@ def main():
             out['final']['cancelled_count'] = h.stats.cancelled_requests
     out['timeout'] = int(cfg.sim.request_cancel_time_seconds)
     out['off_shift_dispatch'] = cap.off_shift_dispatch
+    out['availability_vs_clock'] = cap.availability_vs_clock
     out['human_drivers'] = sum(1 for v in rp.s.vehicles.values() if 'Human' in type(v.driver_state).__name__)
     if a.detail:
         out['detail'] = details
